@@ -300,15 +300,10 @@ pub fn findbyte_spec(name: &str, f: FindByteFn) -> Spec {
     let run = move |case: &Case| -> Outcome {
         let n = case.n as usize;
         let bad = |hay: &[u8], needle: u8, got: Option<usize>, want: Option<usize>| -> Outcome {
-            let kind = match (got, want) {
-                (None, Some(_)) => "missed",
-                (Some(_), None) => "phantom",
-                (Some(g), Some(w)) if g > w => "not_first",
-                _ => "wrong_pos",
-            };
+            let kind = if want.is_none() { "phantom" } else { "wrong_or_missed" };
             fail(
                 "find_byte",
-                format!("{kind}/{}", if needle >= 0x80 { "byte>=0x80" } else if needle == 0 { "byte=0" } else { "byte<0x80" }),
+                kind,
                 format!("len={} align={} content={} needle={needle:#04x}: got {got:?}, scalar definition says {want:?}", hay.len(), case.a, cname(case.c)),
             )
         };
@@ -466,18 +461,11 @@ pub fn strstr_spec(name: &str, f: StrStrFn, oracle: StrStrOracle, text: bool, is
         let needle = place(1, if case.a == G { G } else { (case.a.wrapping_mul(3)) & 63 }, &needle_v);
         let hay = arena().buf(0, case.a, n);
         let bad = |hay: &[u8], got: Option<usize>, want: Option<usize>, what: &str| -> Outcome {
-            let kind = match (got, want) {
-                (None, Some(_)) => "missed",
-                (Some(_), None) => "phantom",
-                (Some(g), Some(w)) if g > w => "not_first",
-                _ => "wrong_pos",
-            };
+            let kind = if want.is_none() { "phantom" } else { "wrong_or_missed" };
             let kc = match k {
                 0 => "k=0",
-                1 => "k=1",
-                2..=16 => "k<=16",
-                17..=32 => "k<=32",
-                _ => "k>32",
+                1..=16 => "k<=16",
+                _ => "k>16",
             };
             fail(
                 "find_substring",
@@ -588,12 +576,7 @@ pub fn anyof_spec(name: &str, f: AnyOfFn) -> Spec {
         let hay = place(0, case.a, &base);
         let scalar = |h: &[u8]| h.iter().position(|b| set_v.contains(b));
         let bad = |hay: &[u8], got: Option<usize>, want: Option<usize>, member: usize| -> Outcome {
-            let kind = match (got, want) {
-                (None, Some(_)) => "missed",
-                (Some(_), None) => "phantom",
-                (Some(g), Some(w)) if g > w => "not_first",
-                _ => "wrong_pos",
-            };
+            let kind = if want.is_none() { "phantom" } else { "wrong_or_missed" };
             fail(
                 "find_any_of",
                 format!("{kind}/{}/{}", if k > 16 { "set>16" } else { "set<=16" }, if member >= 16 { "member>=16" } else { "member<16" }),
